@@ -11,15 +11,17 @@ ToSt(j) == [t |-> [root |-> j.root, p |-> j.p, l |-> j.l, r |-> j.r, c |-> j.c, 
 Sane(j) == ~j.bad /\ ~j.damage
 AllocKinds == {"alloc", "free", "allocfail"}
 Norm(ev) == [i \in 1..Len(ev) |-> IF ev[i][1] \in AllocKinds THEN <<ev[i][1]>> ELSE ev[i]]
+\* insert and erase may be called without an iterator to fill in (noit): nothing to compare then
+ItIs(rec, x) == (rec.op # "erasei" /\ rec.noit) \/ rec.it = x
 SameSt(j, s) == Sane(j) /\ ToSt(j) = CanonM(s)
 StepOK(rec) ==
     IF rec.out # "ok" \/ ~Sane(rec.pre) THEN FALSE ELSE
     LET pre == ToSt(rec.pre) IN
     CASE rec.op = "insert" -> LET r == InsertM(pre, rec.k, rec.ko, rec.vo, ~rec.fail) IN
-                                SameSt(rec.post, r.s) /\ rec.ret = r.ret /\ rec.it = r.it /\ Norm(rec.ev) = r.ev
+                                SameSt(rec.post, r.s) /\ rec.ret = r.ret /\ ItIs(rec, r.it) /\ Norm(rec.ev) = r.ev
       [] rec.op = "find"   -> rec.post = rec.pre /\ rec.it = FindM(pre, rec.k)
       [] rec.op \in {"erase", "erasei"} -> LET r == EraseM(pre, rec.k) IN
-                                SameSt(rec.post, r.s) /\ rec.ret = r.ret /\ rec.it = r.it /\ Norm(rec.ev) = r.ev
+                                SameSt(rec.post, r.s) /\ rec.ret = r.ret /\ ItIs(rec, r.it) /\ Norm(rec.ev) = r.ev
       [] rec.op = "clear"  -> LET r == ClearM(pre, rec.cb) IN SameSt(rec.post, r.s) /\ Norm(rec.ev) = r.ev
       [] rec.op = "size"   -> rec.post = rec.pre /\ rec.ret = pre.t.size
       [] OTHER -> FALSE
@@ -30,14 +32,14 @@ C08OK(rec) ==
        /\ post.t.size = Cardinality(Dom(post))
        /\ rec.post.nlive = Cardinality(Dom(post))              \* exactly one allocated node per entry
        /\ CASE rec.op = "insert" ->
-                 IF k \in Dom(pre) THEN rec.ret = 1 /\ rec.it = Entry(pre, k) /\ Dom(post) = Dom(pre) /\ SameBut(pre, post, {})
-                 ELSE IF ~rec.fail THEN /\ rec.ret = 0 /\ rec.it = <<rec.ko, rec.vo>> /\ Dom(post) = Dom(pre) \cup {k}
+                 IF k \in Dom(pre) THEN rec.ret = 1 /\ ItIs(rec, Entry(pre, k)) /\ Dom(post) = Dom(pre) /\ SameBut(pre, post, {})
+                 ELSE IF ~rec.fail THEN /\ rec.ret = 0 /\ ItIs(rec, <<rec.ko, rec.vo>>) /\ Dom(post) = Dom(pre) \cup {k}
                                         /\ Entry(post, k) = <<rec.ko, rec.vo>> /\ SameBut(pre, post, {k})
-                 ELSE rec.ret = -1 /\ rec.it = End /\ Dom(post) = Dom(pre) /\ SameBut(pre, post, {})
+                 ELSE rec.ret = -1 /\ ItIs(rec, End) /\ Dom(post) = Dom(pre) /\ SameBut(pre, post, {})
             [] rec.op = "find" -> Dom(post) = Dom(pre) /\ SameBut(pre, post, {}) /\ rec.it = (IF k \in Dom(pre) THEN Entry(pre, k) ELSE End)
             [] rec.op \in {"erase", "erasei"} ->
-                 IF k \in Dom(pre) THEN rec.ret = 0 /\ rec.it = Entry(pre, k) /\ Dom(post) = Dom(pre) \ {k} /\ SameBut(pre, post, {k})
-                 ELSE rec.ret = -1 /\ rec.it = End /\ Dom(post) = Dom(pre) /\ SameBut(pre, post, {})
+                 IF k \in Dom(pre) THEN rec.ret = 0 /\ ItIs(rec, Entry(pre, k)) /\ Dom(post) = Dom(pre) \ {k} /\ SameBut(pre, post, {k})
+                 ELSE rec.ret = -1 /\ ItIs(rec, End) /\ Dom(post) = Dom(pre) /\ SameBut(pre, post, {})
             [] rec.op = "clear" ->
                  LET cs == SelectSeq(rec.ev, LAMBDA e : e[1] = "c") IN
                  /\ Dom(post) = {} /\ post.t.size = 0
